@@ -571,7 +571,11 @@ Inductive op :=
 | XRmSchema
 | XRmEntry (u : N)
 | XStray (name : list N)
-| XStrayUuidDir (u : N).
+| XStrayUuidDir (u : N)
+(* single-object flush: Flush(o) / FlushAndCommit(o) with the caller's object o (uuid u, content ob) *)
+| OFlushOne (u : N) (ob : obj) (withc : bool)
+(* Search.Expects(n) / ExpectsZeroOrN(n) on a kept search value *)
+| OExpects (sid : N) (n : Z) (zero_ok : bool).
 
 Inductive out :=
 | RUnit (r : res unit)
@@ -1072,6 +1076,29 @@ Definition step_fg (hk : hooks) (live_shape : N) (s : state) (o : op) : state * 
        RUnit (Ok tt))
   | XStrayUuidDir u =>
       (mk h (set_disk w (disk_set_file {| fn_uuid := u; fn_suffix := [46; 106; 115; 111; 110]%N |} CDir d)), RUnit (Ok tt))
+  | OFlushOne u ob withc =>
+      (* FlushAndCommit commits first; db.flush then writes the object it was GIVEN (writeObject looks
+         the schema up itself) and drops the pending entry whatever happened; the last error wins *)
+      let '(h0, e0, w0) := if withc then commit live_shape h w else (h, None, w) in
+      match db_schema live_shape h0 (w_disk w0) with
+      | (h1, Some m, None) =>
+          let (e1, w1) := write_object w0 m u ob in
+          (mk (set_pend h1 (remove_key u (h_pend h1))) w1,
+           RUnit (lift_e (match e1 with Some x => Some x | None => e0 end)))
+      | (h1, _, Some e) => (mk (set_pend h1 (remove_key u (h_pend h1))) w0, RUnit (Err e))
+      | (h1, None, None) => (mk (set_pend h1 (remove_key u (h_pend h1))) w0, RUnit (Err EOther))
+      end
+  | OExpects sid n zero_ok =>
+      let r := find_srch h sid in
+      match sr_err r with
+      | Some e => (s, RSearch (Some e) (Z.of_nat (length (sr_fields r))))
+      | None =>
+          let found := Z.of_nat (length (sr_fields r)) in
+          if Z.eqb found n || (zero_ok && Z.eqb found 0) then (s, RSearch None found)
+          else
+            let r' := {| sr_fields := sr_fields r; sr_err := Some EUnexpectedN; sr_limit := sr_limit r; sr_rev := sr_rev r |} in
+            (mk (set_srch h (put sid r' (h_srch h))) w, RSearch (Some EUnexpectedN) found)
+      end
   end.
 
 (* one step: the foreground call, then goroutines it started run once; a tick wakes every
